@@ -1,5 +1,5 @@
 """Per-property check pipelines (see DESIGN.md section 4)."""
-import json, os, subprocess
+import json, os, shutil, subprocess, time
 from vlib import *   # noqa
 
 S = spec_path
@@ -106,6 +106,8 @@ def default_trace_key(evt):
 def check_C02(ctx):
     q = ctx.quick()
     mc(ctx, "Generator", S("mc", "MC_Generator.cfg"), S("mc", "MC_Generator.tla"), workers=4)
+    # the same cursor laws for utterances of any length and buffers of any size
+    apalache_inductive(ctx, "GenInt", S("apalache", "GenInt.tla"), "Inv")
     # S->I: every call history of length <= L on generators of 0,1,2,3,5 frames
     cfg = S("gen", "Gen_Generator.cfg" if q else "Gen_Generator_thorough.cfg")
     cases = gen(ctx, "Generator", cfg, S("gen", "Gen_Generator.tla"), workers=4 if q else 8)
@@ -132,11 +134,33 @@ def check_C02(ctx):
             {})
 
 
+def apalache_inductive(ctx, name, tla, inv, cinit=None, timeout=900):
+    """Unbounded design-level check: `inv` is an inductive invariant of the Apalache-typed module `tla`
+    (Init => inv at length 0; IndInit (an arbitrary state satisfying inv) /\ Next => inv' at length 1)."""
+    out = ctx.path("apalache_" + name)
+    base = ["apalache-mc", "check", "--out-dir=" + out, "--inv=" + inv] + (["--cinit=" + cinit] if cinit else [])
+    t = time.time()
+    for step, extra in (("base", ["--init=Init", "--length=0"]), ("step", ["--init=IndInit", "--length=1"])):
+        try:
+            p = subprocess.run(base + extra + [os.path.basename(tla)], cwd=os.path.dirname(tla), stdout=subprocess.PIPE,
+                               stderr=subprocess.STDOUT, text=True, timeout=timeout)
+        except subprocess.TimeoutExpired:
+            raise ToolError("apalache timeout (%s %s)" % (name, step))
+        if "EXITCODE: OK" not in p.stdout:
+            log(p.stdout[-2000:])
+            raise ToolError("apalache: %s is not an inductive invariant of %s (%s case) - a specification-level error" % (inv, name, step))
+    shutil.rmtree(out, ignore_errors=True)
+    ctx.stage("APALACHE " + name, invariant=inv, inductive=True, wall="%.1fs" % (time.time() - t))
+    ctx.states += 2
+
+
 # --------------------------------------------------------------------------- C20
 
 def check_C20(ctx):
     q = ctx.quick()
     mc(ctx, "Condition", S("mc", "MC_Condition.cfg"), S("mc", "MC_Condition.tla"), workers=8)
+    # the clamping laws for unbounded arguments (any order-preserving integer image of the f64 / usize arguments)
+    apalache_inductive(ctx, "CondInt", S("apalache", "CondInt.tla"), "RangeLaw", cinit="ConstInit")
     tla = S("gen", "Gen_Condition.tla")
     key = lambda c: json.dumps([(h["set"], h["s"], h["arg"]) for h in c["hist"]])
     cases = gen(ctx, "Condition_L1", S("gen", "Gen_Condition.cfg"), tla, workers=2)
